@@ -585,9 +585,13 @@ class SymInterp:
                 return self.builtins[n](*args, **kwargs)
             std = {"len": len, "list": list, "tuple": tuple, "enumerate": lambda x: list(enumerate(x)), "range": lambda *a: list(range(*a)), "zip": lambda *a: list(zip(*a)),
                    "str": lambda x: x if isinstance(x, str) else repr(x), "isinstance": lambda *a: False, "min": min, "max": max, "bool": bool, "int": int, "abs": abs, "slice": slice, "getattr": getattr, "setattr": setattr, "hasattr": hasattr, "dict": dict, "reversed": lambda x: list(reversed(x)), "set": set, "sorted": sorted, "map": lambda f_, *xs: [f_(*a_) for a_ in zip(*xs)], "any": any, "all": all, "sum": sum,
-                   "frozenset": frozenset, "round": round, "divmod": divmod}
+                   "frozenset": frozenset, "round": round, "divmod": divmod, "type": type}
             if n in std:
-                return std[n](*args)
+                if kwargs and n not in ("sorted", "min", "max", "dict", "enumerate", "int", "round", "sum"):
+                    raise AnalysisError(f"keyword arguments of builtin {n} are not modelled")
+                if n == "enumerate" and kwargs:
+                    return list(enumerate(*args, **kwargs))
+                return std[n](*args, **kwargs)
             if n == "id":
                 return f"ID({args[0]!r})"
             raise AnalysisError(f"call to {n} outside the symbolic fragment")
